@@ -170,7 +170,19 @@ func (ucr *UnsignedChunkReader) extractChunkSize() (int64, error) {
 	if err != nil {
 		return 0, errMalformedEncoding
 	}
-	line = strings.TrimSpace(line)
+	// the chunk size line is hex digits followed by CR LF: a line
+	// that ends differently (LF alone, other white space in place of
+	// the CR) or carries a sign is malformed, not another spelling
+	if !strings.HasSuffix(line, "\r\n") {
+		return 0, errMalformedEncoding
+	}
+	line = strings.TrimSuffix(line, "\r\n")
+	for i := 0; i < len(line); i++ {
+		c := line[i]
+		if !(c >= '0' && c <= '9' || c >= 'a' && c <= 'f' || c >= 'A' && c <= 'F') {
+			return 0, errMalformedEncoding
+		}
+	}
 
 	chunkSize, err := strconv.ParseInt(line, 16, 64)
 	if err != nil || chunkSize < 0 {
